@@ -14,6 +14,7 @@ import (
 
 	"verif/harness/h"
 	"verif/harness/pol"
+	"verif/harness/sel"
 	"verif/harness/val"
 )
 
@@ -24,9 +25,10 @@ func TestMain(m *testing.M)   { os.Exit(P.Main(m)) }
 func TestReplay(t *testing.T) { P.Replay(t) }
 
 type Case struct {
-	Pat string `json:"pat"`
-	Str string `json:"str"`
-	Non *val.V `json:"non_string,omitempty"` // when set, the data is this non-string value
+	Pat  string `json:"pat"`
+	Str  string `json:"str"`
+	Non  *val.V `json:"non_string,omitempty"` // when set, the data is this non-string value
+	Wrap bool   `json:"wrap,omitempty"`       // also evaluate the like under all / any / not / and / or and on a field
 }
 
 func like(c *h.Ctx, pat string, data ipld.Node) (constructed bool, matched bool) {
@@ -98,6 +100,40 @@ func run(c *h.Ctx, cs Case) {
 	}
 	if got != want {
 		c.Fail(sigFor(cs.Pat, cs.Str, got), "like %q on %q: got %v, glob language says %v", cs.Pat, cs.Str, got, want)
+	}
+	// the statement is about "a like statement", wherever it stands: under a quantifier over a list holding
+	// the string, on a field, under not / and / or
+	if cs.Wrap {
+		likeS := pol.Stmt{Op: "like", Sel: sel.Sel{{Kind: "id"}}, Pat: cs.Pat}
+		sv := val.Str(cs.Str)
+		other := val.Str(cs.Str + "\x00never")
+		for _, w := range []struct {
+			name string
+			st   pol.Stmt
+			data val.V
+			want bool
+		}{
+			{"any", pol.Stmt{Op: "any", Sel: sel.Sel{{Kind: "id"}}, Sub: []pol.Stmt{likeS}}, val.List(sv), want},
+			{"all", pol.Stmt{Op: "all", Sel: sel.Sel{{Kind: "id"}}, Sub: []pol.Stmt{likeS}}, val.List(sv, sv), want},
+			{"any-field", pol.Stmt{Op: "any", Sel: sel.Sel{{Kind: "field", Name: "l"}}, Sub: []pol.Stmt{likeS}}, val.Map(val.E("l", val.List(val.Int(1), sv))), want},
+			{"field", pol.Stmt{Op: "like", Sel: sel.Sel{{Kind: "field", Name: "s"}}, Pat: cs.Pat}, val.Map(val.E("s", sv)), want},
+			{"not", pol.Stmt{Op: "not", Sub: []pol.Stmt{likeS}}, sv, !want},
+			{"and", pol.Stmt{Op: "and", Sub: []pol.Stmt{likeS, likeS}}, sv, want},
+			{"or", pol.Stmt{Op: "or", Sub: []pol.Stmt{{Op: "==", Sel: sel.Sel{{Kind: "id"}}, Lit: &other}, likeS}}, sv, want},
+			{"any-in-not", pol.Stmt{Op: "not", Sub: []pol.Stmt{{Op: "any", Sel: sel.Sel{{Kind: "id"}}, Sub: []pol.Stmt{likeS}}}}, val.List(sv), !want},
+		} {
+			for _, viaIPLD := range []bool{false, true} {
+				p, err := pol.Policy{w.st}.Build(viaIPLD)
+				if err != nil {
+					c.Fail("C13/pattern/valid-rejected", "like %q is accepted on its own but rejected under %s: %v", cs.Pat, w.name, err)
+					continue
+				}
+				if m, _ := p.Match(w.data.Node()); m != w.want {
+					c.Fail("C13/glob/wrapped/"+w.name, "like %q on %q standing under %s: the statement evaluates to %v, the glob language says %v (on its own the like gives %v)", cs.Pat, cs.Str, w.name, m, w.want, got)
+				}
+			}
+		}
+		c.P.Class("wrapped")
 	}
 	if nontrivial(cs.Pat, cs.Str) {
 		c.P.NonTrivial([]string{cs.Pat, cs.Str}, map[string]any{"pattern": cs.Pat, "string": cs.Str, "match": want})
@@ -194,6 +230,7 @@ func draw(t *rapid.T) Case {
 		cs.Pat = drawStr(t, "pat")
 		cs.Str = drawStr(t, "str")
 	}
+	cs.Wrap = rapid.IntRange(0, 3).Draw(t, "wrap") == 0
 	return cs
 }
 
